@@ -535,6 +535,7 @@ func sharesStateFile(p *hProj, t *hTask) bool {
 }
 
 type hState struct {
+	cleanAt      time.Time // simulated time of the last successful attempt
 	lastOKForced bool
 	changes map[string]bool // kinds of source changes since the last successful attempt
 	clean   bool
@@ -741,7 +742,22 @@ func runH(t *testing.T, ch *vs.Choices, prop, tier string, render bool) *vs.RunO
 					case !st[ti].clean:
 						e.mustRun, e.cause = true, "last_attempt:"+st[ti].why
 					case st[ti].fp != e.fpNow:
-						e.mustRun, e.cause = true, "sources_changed:"+strings.Join(sortedKeysH(st[ti].changes), "+")+""
+						e.mustRun, e.cause = true, "sources_changed:"+strings.Join(sortedKeysH(st[ti].changes), "+")
+						if m == "timestamp" {
+							// what is left of the changes: is any present source file newer than the last successful
+							// run (an edit, touch or addition survives), or only removals / mtime-preserving renames
+							newer := false
+							for _, f := range matchSources(dir, x.Sources) {
+								if fi, err := os.Stat(filepath.Join(dir, f)); err == nil && fi.ModTime().After(st[ti].cleanAt) {
+									newer = true
+								}
+							}
+							if newer {
+								e.cause = "sources_changed:newer_file_present(" + strings.Join(sortedKeysH(st[ti].changes), "+") + ")"
+							} else {
+								e.cause = "sources_changed:only_removed_or_mtime_preserved"
+							}
+						}
 					case x.Generates && genErr != nil:
 						e.mustRun, e.cause = true, "generates_missing"
 					case x.Status && stErr != nil:
@@ -848,10 +864,12 @@ func runH(t *testing.T, ch *vs.Choices, prop, tier string, render bool) *vs.RunO
 					case crashed:
 						// killed part-way: only soundness-relevant bookkeeping
 						if ran && done {
-							st[ti].clean, st[ti].fp, st[ti].everRan, st[ti].changes = true, e.fpNow, true, map[string]bool{}
+							st[ti].clean, st[ti].fp, st[ti].everRan, st[ti].changes, st[ti].cleanAt = true, e.fpNow, true, map[string]bool{}, now()
 						} else if e.mustRun {
+							// the process was killed somewhere in this invocation: the fingerprint of any task of
+							// the chain that had to run may already have been recorded (an earlier task of the
+							// chain may have been skipped on the strength of such a leftover record)
 							st[ti].clean, st[ti].why = false, "crashed"
-							reached = false
 						}
 					case e.mustRun && !ran:
 						if declined && (inv.exit == 205) {
@@ -863,9 +881,18 @@ func runH(t *testing.T, ch *vs.Choices, prop, tier string, render bool) *vs.RunO
 						if wrapper && inv.exit != 0 {
 							// next to the always-failing sibling "not run" can mean cancelled before its commands
 							// started or skipped as up to date; the two cannot be told apart from outside, so the
-							// reason recorded for the previous attempt is kept
+							// reason recorded for the previous attempt is kept. Later tasks of the chain are only
+							// looked at if one of them provably started.
 							out.Hit("fault:sibling_cancel_or_skip")
-							reached = false
+							later := false
+							for _, tj := range chain {
+								if tj != ti && began[p.Tasks[tj].ID] {
+									later = true
+								}
+							}
+							if !later {
+								reached = false
+							}
 							break
 						}
 						// "skipped as up to date" is only certain when the invocation went on: it succeeded, or a
@@ -899,7 +926,7 @@ func runH(t *testing.T, ch *vs.Choices, prop, tier string, render bool) *vs.RunO
 						}
 						violate("C05", sig, "%s: task %s ran although nothing changed since its last successful run", desc, x.Name)
 						if done {
-							st[ti].clean, st[ti].fp, st[ti].changes = true, e.fpNow, map[string]bool{}
+							st[ti].clean, st[ti].fp, st[ti].changes, st[ti].cleanAt = true, e.fpNow, map[string]bool{}, now()
 						} else {
 							st[ti].clean, st[ti].why = false, "failed_cmd"
 							reached = false
@@ -907,10 +934,10 @@ func runH(t *testing.T, ch *vs.Choices, prop, tier string, render bool) *vs.RunO
 					case e.mustRun && ran:
 						st[ti].lastOKForced = forced && done
 						if done && (inv.exit == 0 || wrapper) {
-							st[ti].clean, st[ti].fp, st[ti].everRan, st[ti].changes = true, e.fpNow, true, map[string]bool{}
+							st[ti].clean, st[ti].fp, st[ti].everRan, st[ti].changes, st[ti].cleanAt = true, e.fpNow, true, map[string]bool{}, now()
 						} else if done {
 							// all commands ran but the invocation failed for another reason
-							st[ti].clean, st[ti].fp, st[ti].changes = true, e.fpNow, map[string]bool{}
+							st[ti].clean, st[ti].fp, st[ti].changes, st[ti].cleanAt = true, e.fpNow, map[string]bool{}, now()
 						} else {
 							st[ti].clean = false
 							st[ti].why = "failed_cmd"
